@@ -78,6 +78,16 @@ CHECKS = {
     ref="DESIGN.md §3 C14",
     note="hashlib/zlib trusted. Structure-stable = fixed-size region without validating members.",
     technique="property-based testing + exhaustive single-bit fault injection per generated message"),
+ "C07": dict(
+    text="Generated nesting shapes (Struct/Sequence/FocusedSeq/Union/LazyStruct scopes to depth 4, with constant- and keyword-count Arrays and GreedyRange between them) carry a marker member with a known value in every scope; reference paths of every form (this.x, this._.x ..., this._root.x, this._params.k, this._._.k, this._index, mode flags at any `_` depth, attribute/item spelling) are planted before and after child scopes in the roles value (Computed/Rebuild, also forward references), length (Bytes), count (Array) and selector (Switch/IfThenElse/If). An independent scope-chain model (pbt/refmodel.py scopes + a sizing-mode size model) gives the expected built bytes, parsed value, consumed length and sizeof (or SizeofError when a path points at data); all must agree. The three mode flags are enumerated at depths 1..4 in every role.",
+    ref="DESIGN.md §3 C07",
+    note="Scope rules from docs/meta.rst. LazyStruct scopes only reference keyword parameters and flags and are not placed inside GreedyRange elements (documented restrictions: unparsed members cannot be referenced, 'things may break'). _index is not referenced after its repetition ended, nor under sizeof.",
+    technique="property-based testing with a targeted shape generator; differential against an independent scope-chain model for parse, build and sizeof"),
+ "C16": dict(
+    text="Member lists mixing fixed, context-sized, length-prefixed and unsizable members are realised as LazyStruct, as LazyArray elements and as Lazy(x) members of a Struct, top-level and nested in a parent Struct that uses a lazy member during the parse; on canonical and mutated inputs at offsets 0..3, generated access histories (name, index, attribute, keys/values/items, iteration, len, slices, repeats; all permutations of fixed lists) are compared member by member with the eager Struct/Array parse; stream position after parse_stream and before/after every access must match; builds from lazy results must equal builds from eager results.",
+    ref="DESIGN.md §3 C16",
+    note="LazyContainer == Container not used as oracle. Negative indices and cross references excluded; Lazy(x) only over measurable x.",
+    technique="model-based property testing over access histories; oracle = eager parse of the same bytes"),
 }
 
 NOT_APPLICABLE = [dict(property_id=p, reason="check not yet built in this revision of /verif (planned, see DESIGN.md §3)") for p in ALL if p not in CHECKS]
